@@ -44,7 +44,7 @@ class Finding:
         d = {'property': self.pid, 'rule': self.rule,
              'construct': self.construct, 'message': self.message}
         if self.where:
-            d['file'], d['line'] = self.where
+            d['file'], d['line'] = self.where[0], int(self.where[1])
         return d
 
 
@@ -127,7 +127,8 @@ class Ctx:
                 f'(the rule would pass vacuously)')
 
     def where(self, mod, node):
-        return (mod.rel, getattr(node, 'lineno', 0))
+        return (mod.rel, int(getattr(node, '_src_lineno', None) or
+                             getattr(node, 'lineno', 0)))
 
     # -- finishing ------------------------------------------------------------
     def evidence(self, wall, violations, error=None):
@@ -208,7 +209,7 @@ class Ctx:
             path = os.path.join(fdir, slug(f.key) + '.json')
             with open(path, 'w') as fh:
                 json.dump(f.as_dict(), fh, indent=1)
-            loc = f'{f.where[0]}:{f.where[1]}' if f.where else '?'
+            loc = f'{f.where[0]}:{int(f.where[1])}' if f.where else '?'
             print(f'  {loc}: [{f.rule}] {f.construct}: {f.message}')
             print(f'VIOLATION property={self.pid} replay={path}')
             code = 1
